@@ -10,11 +10,11 @@ import (
 	zerr "github.com/DemoHn/Zn/pkg/error"
 	"github.com/DemoHn/Zn/pkg/exec"
 	r "github.com/DemoHn/Zn/pkg/runtime"
+	"github.com/DemoHn/Zn/pkg/syntax"
+	"github.com/DemoHn/Zn/pkg/syntax/zh"
 	"github.com/DemoHn/Zn/pkg/value"
 	libFile "github.com/DemoHn/Zn/stdlib/file"
 	libJson "github.com/DemoHn/Zn/stdlib/json"
-	"github.com/DemoHn/Zn/pkg/syntax"
-	"github.com/DemoHn/Zn/pkg/syntax/zh"
 )
 
 // RealErr classifies an error of the real interpreter structurally.
